@@ -6,7 +6,7 @@ from vf.ob import obligation, shard
 from tartiflette.types.exceptions.tartiflette import GraphQLSyntaxError, TartifletteError
 
 META = {
-    "bounds": "operation_name: every string or None against 5 document shapes; the FFI parser outcome: an arbitrary error string (the C function's contract) or one of 14 catalogue "
+    "bounds": "operation_name: every string or None against 5 document shapes; the FFI parser outcome: an arbitrary error string (the C function's contract) or one of 22 catalogue "
               "documents (valid, invalid, runtime-failing, syntactically broken, str/bytes, multi-line); custom error coercer returning a dict with a symbolic int; resolver payload ints unbounded",
     "outside": "which texts the C lexer accepts (the C parser is absent: claims start at the JSON AST the FFI model produces for the text); `variables` that are not a dict/None",
     "explanation": "Well-formedness predicate on every response + operation selection written from the spec (GetOperation) + coercer call log.",
@@ -115,14 +115,15 @@ def c18_operation_name(op: Optional[str]) -> bool:
 CATALOGUE = [
     "{ a }", "{ a b q { a } }", "{ boom a }", "{ nn }", "{ tboom }", "{ nope }", "{ a { x } }", "query ($v: Int!) { echo(v: $v) }", "{ a ", "", "}{", "{ a }\n\n{ b }",
     "query Q {\n  a\n  boom\n  q {\n    tboom\n  }\n}", "{ a(x: 1) }", "# only a comment", "{ echo(v: \"s\") }", "query Q($v: Int) { echo(v: $v) q { q { boom } } }",
+    b"\xff\xfe\x00{ a }\x80", "{ a } # caf\u00e9".encode("latin-1"), b"\x00", "{ a } # \u00e9\u4e2d".encode("utf-8"), "{ \u00e9 }",
 ]
 
 
 @obligation(tier="quick", timeout=200,
             samples=[{"k": 0, "asbytes": False, "nullnn": False, "v": 1, "withop": 0}, {"k": 8, "asbytes": True, "nullnn": True, "v": None, "withop": 1}],
             symbolic=["v: Optional[int] — variable / payload (unbounded)"],
-            selectors=["k: catalogue text (17)", "asbytes: str or bytes", "nullnn: the non-null field resolves to null", "withop: operation_name absent / 'Q' / unknown"],
-            bounds="17 texts x str/bytes x 3 operation names",
+            selectors=["k: catalogue text (22, incl. bytes that are not valid UTF-8)", "asbytes: str or bytes", "nullnn: the non-null field resolves to null", "withop: operation_name absent / 'Q' / unknown"],
+            bounds="22 texts x str/bytes x 3 operation names",
             note="never raises; response well-formed (data key, non-empty errors only when something went wrong, message/path/locations inside the text, extensions only when set); syntax errors give data null and run nothing")
 def c18_catalogue(k: int, asbytes: bool, nullnn: bool, v: Optional[int], withop: int) -> bool:
     """
@@ -130,7 +131,10 @@ def c18_catalogue(k: int, asbytes: bool, nullnn: bool, v: Optional[int], withop:
     """
     k = pick(k, len(CATALOGUE)); withop = pick(withop, 3)
     text = CATALOGUE[k]
-    q = text.encode("utf-8") if pickb(asbytes) else text
+    if isinstance(text, bytes):
+        q = text              # bytes that need not be valid UTF-8
+    else:
+        q = text.encode("utf-8") if pickb(asbytes) else text
     data = dict(DATA)
     if pickb(nullnn):
         data["nn"] = None
